@@ -92,9 +92,9 @@ CLAIMED = {
          'exponential series, outer/trace slice-wise, base matrices that require row pivoting, real/complex and mixed operand dtypes (partial: logdet as log of det, Pade approximant, rectangular right-hand sides have no theorem).')),
  'C08': dict(
    technique='Lean 4 theorems on Mathlib matrices (order-d step equations of _qr_rectangular, _cholesky, lu and _eigh1 imply QR=A, Q^TQ=I, LL^T=A, LU=W^TA, Q^TAQ=Lambda at order d) + residual oracle for every factorization',
-   text=('Theorems for every size and order d>=1: the step equations of the square QR kernel give Sum Q_k R_{d-k} = A_d and Sum Q_k^T Q_{d-k} = 0; the Cholesky step gives Sum L_k L_{d-k}^T = A_d (with the code\'s projection matrix); the LU step gives Sum L_k U_{d-k} = (W^T A)_d with strictly-lower / upper masks; the _eigh1 step gives (Q^T Q)_d = 0 and (Q^T A Q)_d = Lambda_d, block diagonal in the clusters of equal eigenvalues (the full symmetric eigendecomposition for distinct eigenvalues, the relaxed problem otherwise). '
+   text=('Theorems for every size and order d>=1: the step equations of the square QR kernel give Sum Q_k R_{d-k} = A_d and Sum Q_k^T Q_{d-k} = 0; the Cholesky step gives Sum L_k L_{d-k}^T = A_d (with the code\'s projection matrix); the LU step gives Sum L_k U_{d-k} = (W^T A)_d with strictly-lower / upper masks; R_d and U_d are upper triangular, Cholesky L_d lower triangular, LU L_d strictly lower for d>=1 (unit diagonal) at every order; the _eigh1 step gives (Q^T Q)_d = 0 and (Q^T A Q)_d = Lambda_d, block diagonal in the clusters of equal eigenvalues (the full symmetric eigendecomposition for distinct eigenvalues, the relaxed problem otherwise). '
          'The implementation\'s output is checked against these step equations on every case, and the residuals of all defining equations (QR reduced/full/tall/wide, Cholesky, LU, eigh with distinct and exactly repeated eigenvalues '
-         'splitting at any order, eig for D<=2, SVD), triangularity, ordering and the zeroth-order factorization are evaluated as truncated polynomial identities per direction (partial: no theorem for the cluster recursion of _eigh with repeated eigenvalues, eig, svd, tall/wide/full QR, triangularity of R).')),
+         'splitting at any order, eig for D<=2, SVD), triangularity, ordering and the zeroth-order factorization are evaluated as truncated polynomial identities per direction (partial: no theorem for the cluster recursion of _eigh with repeated eigenvalues, eig, svd, tall/wide/full QR).')),
 }
 _todo = 'check under construction in this session: Lean model/theorems and correspondence not committed yet'
 NOT_APPLICABLE = {('C%02d' % i): _todo for i in range(1, 18)}
